@@ -147,3 +147,34 @@ def _setup(b, case):
 c.setup(_setup)
 c.ensures('first-request', '1 <= result <= 3')
 c.ensures('second-request-has-its-own-three-attempts', "1 <= ghost('attempts') <= 3 and (len(ghost('Dev')) == 0 ==> ghost('attempts') == 3)")
+
+
+# ---- every discovery reports each device as it answers NOW: name, group and location as last reported, and a proxy
+#      born at this discovery (expiry measures the time since a light was last seen)
+c = contract(LA, 'get_lights_twice', serves=['C13', 'C12'], name='lemma:get_lights; the device is renamed and regrouped; get_lights', src='''
+def get_lights_twice(api, settings):
+    import time as _t
+    first = LifxLanApi.get_lights.__wrapped__(api, settings)
+    t1 = _t.time()
+    second = LifxLanApi.get_lights.__wrapped__(api, settings)
+    return (first, second, t1)
+''')
+def _setup(b, case):
+    impl = lib.device(b, 'dev', fail=False, features={})
+    def reporting(what):
+        def f(I_, o, a, k):
+            v = I_.fresh('str', what)
+            I_.ghost['last_' + what] = v
+            return v
+        return f
+    impl.methods.update(get_label=reporting('label'), get_group=reporting('group'), get_location=reporting('location'),
+                        get_mac_addr=lambda I_, o, a, k: 'd0:73:d5:00:00:01')
+    stub = Opaque('lifxlan', methods={'get_lights': lambda I_, o, a, k: PyList([impl])})
+    api = PyObj(b.cls('bardolph.controller.lifx_lan_api', 'LifxLanApi'), {'_lifxlan': stub})
+    settings = Opaque('settings', {'get_value': lambda I_, o, a, k: None})
+    b.ghost('attempts', 0)
+    return {'api': api, 'settings': settings}
+c.setup(_setup)
+c.ensures('as-last-reported', "len(result[1]) == 1 and result[1][0].get_name() == ghost('last_label') and result[1][0].get_group() == ghost('last_group') "
+          "and result[1][0].get_location() == ghost('last_location')")
+c.ensures('seen-again-means-born-again', 'result[1][0]._birth >= result[2]')
